@@ -65,26 +65,30 @@ PROPS = {"C05": C05}
 _C19_FUNCS = ["incan::lsp::diagnostics::offset_to_position", "incan::lsp::diagnostics::position_to_offset"]
 
 
-def _c19(n, tiers, tq=300, tt=1800):
+_C19_SMALL_OPT = {"offset right after a 4-byte scalar", "after CRLF", "one multi-byte scalar apart",
+                  "span starting inside a scalar", "line break between the two offsets"}
+
+
+def _c19(n, tiers, tq=300, tt=1800, opt=()):
     dom = f"every valid-UTF-8 document of <= {n} bytes (all mixes of 1-4-byte scalars, LF, CR, empty, no final newline)"
     return [
         H(f"c19_roundtrip_n{n}", "c19", _C19_FUNCS, dom + "; every character-boundary offset",
           "position_to_offset(offset_to_position(off)) == Some(off), and line/character equal the count of newlines "
-          "before off / scalars since the last newline", tiers=tiers, needs_compiler=True, timeout_quick=tq, timeout_thorough=tt),
+          "before off / scalars since the last newline", optional_covers=opt, tiers=tiers, needs_compiler=True, timeout_quick=tq, timeout_thorough=tt),
         H(f"c19_monotone_n{n}", "c19", _C19_FUNCS[:1], dom + "; every pair of boundary offsets o1 < o2",
-          "positions are strictly increasing (lexicographically) in offsets", tiers=tiers, needs_compiler=True,
+          "positions are strictly increasing (lexicographically) in offsets", optional_covers=opt, tiers=tiers, needs_compiler=True,
           timeout_quick=tq, timeout_thorough=tt),
         H(f"c19_position_n{n}", "c19", _C19_FUNCS, dom + "; every Position{line: u32, character: u32}",
-          "position_to_offset is None or a character boundary <= len", tiers=tiers, needs_compiler=True,
+          "position_to_offset is None or a character boundary <= len", optional_covers=opt, tiers=tiers, needs_compiler=True,
           timeout_quick=tq, timeout_thorough=tt),
         H(f"c19_span_n{n}", "c19", ["incan::lsp::diagnostics::span_to_range"] + _C19_FUNCS,
           dom + "; every span with start, end < 2^32 (empty, reversed, past the end, mid-scalar)",
           "span_to_range gives start <= end <= end-of-document, both endpoints being positions of offsets inside the document",
-          tiers=tiers, needs_compiler=True, timeout_quick=tq, timeout_thorough=tt),
+          optional_covers=opt, tiers=tiers, needs_compiler=True, timeout_quick=tq, timeout_thorough=tt),
     ]
 
 
-C19 = _c19(4, ("quick",)) + _c19(6, ("thorough",)) + [
+C19 = _c19(2, ("quick", "thorough"), opt=_C19_SMALL_OPT) + _c19(4, ("quick",)) + _c19(6, ("thorough",)) + [
     H("c19_roundtrip_n8", "c19", _C19_FUNCS, "every valid-UTF-8 document of <= 8 bytes; every boundary offset",
       "round trip + counting oracle, 8-byte documents", tiers=("thorough",), needs_compiler=True, timeout_thorough=2400)]
 
